@@ -263,7 +263,7 @@ func decDomain(fd int, rng yang.YangRange) []Value {
 	return out
 }
 
-var stringCands = []string{"a", "a/b]=\\[x", "ab c", "é✓", "abc"}
+var stringCands = []string{"a", "a/b]=\\[x", "ab c", "é✓", "abc", "x:y", ""}
 
 func lenOK(rng yang.YangRange, n int) bool {
 	return InRanges(rng, new(big.Rat).SetInt64(int64(n)))
@@ -620,6 +620,12 @@ func (p *Pkg) derive(st reflect.Type, se *yang.Entry, steps []Step, prefix Path,
 			}
 			keyNames := p.ListKeyNames(et)
 			ee := p.EntryFor(et)
+			if !nested {
+				// representation atom: an empty but non-nil map / ordered map
+				a := mk("emptylist", NoValue, false, fsteps, fpath)
+				a.Name += "={}"
+				*ents = append(*ents, a)
+			}
 			// key domains from the entry's key leaf fields
 			doms := make([][]Value, len(keyNames))
 			for ki, kn := range keyNames {
@@ -627,7 +633,11 @@ func (p *Pkg) derive(st reflect.Type, se *yang.Entry, steps []Step, prefix Path,
 					kf := et.Elem().Field(j)
 					if isKeyField(kf, []string{kn}) {
 						ke, _ := FindChild(ee, tagPaths(kf)[len(tagPaths(kf))-1])
-						doms[ki] = p.LeafDomain(kf.Type, ke)
+						for _, dv := range p.LeafDomain(kf.Type, ke) {
+							if dv != "str:" { // gNMI path keys cannot be empty
+								doms[ki] = append(doms[ki], dv)
+							}
+						}
 					}
 				}
 			}
@@ -646,8 +656,29 @@ func (p *Pkg) derive(st reflect.Type, se *yang.Entry, steps []Step, prefix Path,
 			}
 			idxs := []int{0, -1, 1}
 			seen := map[string]bool{}
+			nstr := 0
+			for _, d := range doms {
+				if d[0].Kind() == "str" {
+					nstr++
+				}
+			}
 			for ti := 0; ti < ntuples; ti++ {
 				var tuple []Value
+				if nstr >= 2 && nstr == len(doms) {
+					// adversarial pair: the tuples differ but their space-joined renderings coincide
+					if ti == 0 {
+						tuple = append(tuple, "str:a b", "str:c")
+					} else {
+						tuple = append(tuple, "str:a", "str:b c")
+					}
+					for len(tuple) < len(doms) {
+						tuple = append(tuple, "str:z")
+					}
+					tuple = tuple[:len(doms)]
+				}
+				if tuple != nil {
+					goto haveTuple
+				}
 				for ki := range keyNames {
 					d := doms[ki]
 					ix := idxs[(ti+ki)%3]
@@ -662,6 +693,7 @@ func (p *Pkg) derive(st reflect.Type, se *yang.Entry, steps []Step, prefix Path,
 					}
 					tuple = append(tuple, d[ix])
 				}
+			haveTuple:
 				ks := fmt.Sprint(tuple)
 				if seen[ks] {
 					continue
@@ -851,6 +883,12 @@ func (p *Pkg) Apply(root interface{}, a *Atom) error {
 			}
 			cur = f
 		case FKeyedList:
+			if a.Kind == "emptylist" && last {
+				if f.IsNil() {
+					f.Set(reflect.MakeMap(f.Type()))
+				}
+				continue
+			}
 			et := f.Type().Elem()
 			keyNames := p.ListKeyNames(et)
 			entry := reflect.New(et.Elem())
@@ -873,6 +911,9 @@ func (p *Pkg) Apply(root interface{}, a *Atom) error {
 		case FOrderedList:
 			if f.IsNil() {
 				f.Set(reflect.New(f.Type().Elem()))
+			}
+			if a.Kind == "emptylist" && last {
+				continue
 			}
 			gm := f.MethodByName("Get")
 			et := gm.Type().Out(0)
